@@ -26,6 +26,17 @@ type HookGate struct {
 	Passed  map[string]int64 // how often each point was reached
 	// AnyGoroutine also parks goroutines the harness started (direct loader/workspace drivers)
 	AnyGoroutine bool
+	seen         map[string]bool
+}
+
+func goroutineID() string {
+	buf := make([]byte, 64)
+	n := runtime.Stack(buf, false)
+	f := strings.Fields(string(buf[:n]))
+	if len(f) >= 2 {
+		return f[1]
+	}
+	return "?"
 }
 
 var activeGate *HookGate
@@ -53,6 +64,17 @@ func hookPark(g *HookGate, point, key string) {
 		g.mu.Unlock()
 		return
 	}
+	// a goroutine is parked at most once per point (a point may have several call sites on one path)
+	gid := goroutineID()
+	seenKey := gid + "|" + point
+	if g.seen == nil {
+		g.seen = map[string]bool{}
+	}
+	if g.seen[seenKey] {
+		g.mu.Unlock()
+		return
+	}
+	g.seen[seenKey] = true
 	h := &hookCall{Point: point, Key: key, release: make(chan struct{})}
 	g.arrived++
 	h.Arrived = g.arrived
